@@ -513,6 +513,49 @@ def threads_over_one_document(ctx, r):
     return True
 
 
+def patterns_the_regex_engine_remarks_on(ctx, r):
+    """match() / search() with patterns about which `re` has something to say the first time it compiles them (sets that
+    look nested or like set operations: `[[a]`, `[a&&b]`, `[a--b]`, `[a||b]`, `[a~~b]`), every pattern never seen before
+    by this process: the first evaluation, the second, one after unrelated compilations, one after other code in the
+    process compiled the very same pattern text, and one after `re.purge()` must
+    all select the same nodes."""
+    import re
+    import warnings
+
+    import jsonpath
+
+    for i in range(40):
+        u = "%d%d" % (r.randrange(10**6), i)
+        shape = r.choice(["[[%s]", "[%s&&x]", "[x--%s]", "[%s||y]", "[~~%s]", "[[:%s:]]"])
+        pat = shape % u
+        fn = r.choice(["match", "search"])
+        doc = [{"s": u[0], "p": pat}, {"s": "zzz", "p": pat}, {"s": u[-1] + ("" if fn == "match" else "!"), "p": pat}, {"s": 7, "p": pat}]
+        text = r.choice(["$[?%s(@.s, '%s')]" % (fn, pat), "$[?%s(@.s, @.p)]" % fn, "$[?%s(@.s, $[0].p)]" % fn])
+        with warnings.catch_warnings():
+            warnings.simplefilter("ignore", FutureWarning)
+            q = jsonpath.compile(text)
+            runs = []
+            for stage in ("first", "second", "after unrelated compilations", "after other code compiled the same pattern text", "after re.purge()", "once more"):
+                if stage == "after unrelated compilations":
+                    for k in range(5):
+                        re.compile("unrelated%s%d" % (u, k))
+                if stage == "after other code compiled the same pattern text":
+                    try:
+                        re.compile(pat)
+                    except re.error:
+                        pass
+                if stage == "after re.purge()":
+                    re.purge()
+                runs.append((stage, [m.path for m in q.finditer(doc)]))
+        ctx.evaluation(len(runs))
+        ctx.case(h("remarked", shape, fn, text.replace(u, "U")), bool(runs[0][1]))
+        ctx.count("evaluations_with_patterns_the_regex_engine_remarks_on", len(runs))
+        if any(got != runs[0][1] for _, got in runs):
+            ctx.violation("result-depends-on-what-the-regex-engine-has-compiled-before", {"kind": "stack-depth"}, {"text": text, "document": doc, "runs": runs})
+            return False
+    return True
+
+
 def solo(text, doc, ex):
     """Reference: fresh environment with caching off, freshly compiled, fresh deep copy."""
     import jsonpath
@@ -915,6 +958,7 @@ def run(spec, ctx):
         for _ in range(3):
             if not threads_over_one_document(ctx, ctx.rng):
                 break
+        patterns_the_regex_engine_remarks_on(ctx, ctx.rng)
         return
     install()
     r = ctx.rng
@@ -983,6 +1027,7 @@ def replay(case, ctx):
         for _ in range(6):
             if not threads_over_one_document(ctx, ctx.rng):
                 break
+        patterns_the_regex_engine_remarks_on(ctx, ctx.rng)
         return
     install()
     kind = case.get("kind", "history")
